@@ -128,6 +128,7 @@ class VEval:
             n += 1
             if failing and n == 3: raise RuntimeError("evaluation of %s fails after 2 rows" % ((eid, lid, self.vid),))
             row["vid"] = self.vid
+            if self.vid % 2 == 0: row["nest"] = [{"k": n % 3}, {"z": [n % 2, {"w": 1}]}]      # a list of dicts inside the record: "}]" and "]}" occur mid-record
             yield row
 
 
